@@ -356,11 +356,22 @@ func (it *stringIter) next() tuple {
 }
 
 type mapIter struct {
-	m *omap
-	k int
+	m     *omap
+	k     int
+	order []int // explicit order (MapOrderFork)
 }
 
 func (it *mapIter) next() tuple {
+	if it.order != nil {
+		for it.k < len(it.order) {
+			k := it.order[it.k]
+			it.k++
+			if it.m.alive[k] {
+				return []value{true, it.m.keys[k], it.m.vals[k]}
+			}
+		}
+		return []value{false, nil, nil}
+	}
 	if it.m != nil {
 		for it.k < len(it.m.keys) {
 			k := it.k
